@@ -46,7 +46,7 @@ Preds(n) == {1..n, {x \in 1..n : x % 2 = 1}, {x \in 1..n : x > 1 /\ x < n}, {}}
 Fam(kind, u, ks, nodes) == [kind |-> kind, u |-> u, starts |-> IF kind = "refs" THEN {0} ELSE 0..2 * u + 1, ks |-> ks, nodes |-> nodes, cuts |-> {-1}]
 \* the same with a consumer context that is done after `cut` items
 CtxFam(kind, u, ks, cuts, nodes) ==
-  [Fam(kind, u, ks, nodes) EXCEPT !.cuts = cuts, !.starts = IF kind = "refs" THEN {0} ELSE IF Quick THEN {0, 3} ELSE 0..2 * u + 1]
+  [Fam(kind, u, ks, nodes) EXCEPT !.cuts = cuts, !.starts = IF kind = "refs" THEN {0} ELSE IF Quick THEN {0, 3} ELSE {0, 1, 2, 3, 2 * u}]
 Repos ==
   <<Fam("repos", N1, 0..N1 + 1, Mems(N1)),
     Fam("repos", N1, KsFull(N1), {Http(1, h, m) : h \in HopsFull, m \in Mems(N1)}),
